@@ -144,3 +144,11 @@ pub const fn rb_rebind_if_ok(mut p: Parser<'_>) -> (u8, Parser<'_>) {
 }
 pub const fn it_split_count(s: &str) -> usize { iter::eval!(konst::string::split(s, ","), count()) }
 pub const fn it_chars_count(s: &str) -> usize { iter::eval!(konst::string::chars(s), filter(|c| *c == 'a'), count()) }
+
+use konst::array;
+pub const fn ar_map<const N: usize>(xs: [u32; N]) -> [u32; N] { array::map!(xs, |x| x / 2) }
+pub const fn ar_map_ref<const N: usize>(xs: &[u32; N]) -> [bool; N] { array::map!(xs, |x: &u32| *x % 2 == 0) }
+pub const fn ar_from_fn<const N: usize>() -> [usize; N] { array::from_fn!(|i| i * 2) }
+pub const fn ar_from_fn_k<const N: usize>(k: usize) -> [usize; N] { array::from_fn!(|i| i + k) }
+pub const fn ar_map_by_val<const N: usize>(xs: [u32; N]) -> [u32; N] { array::map_!(xs, |x| x / 2) }
+pub const fn ar_from_fn_by_val<const N: usize>() -> [usize; N] { array::from_fn_!(|i| i * 2) }
